@@ -17,7 +17,8 @@ EXPLANATION = ("Static analysis of patronus_dse::value_summary (rustc HIR facts)
                "the earlier entry with the later one's.")
 ASSUMPTIONS = ["the BDD library implements and/or/not/xor/implies correctly and canonically", "the partition invariant as a semantic statement over BDDs is not decided, only the structural clauses it rests on"]
 LEVEL_TEXT = ("Static typestate / sibling-table / pairing analysis of the summary operations: decides for all summaries and guard valuations at once the structural clauses behind 'pairwise disjoint and jointly exhaustive' "
-              "(complementary guards from one condition, complete cross product, precondition of the entry deletion, operator table of the guard import). The BDD package itself is trusted.")
+              "(complementary guards from one condition, complete cross product, precondition of the entry deletion, operator table of the guard import). The BDD package itself is trusted."
+              " Nothing leaves the cross-product loops of apply_bin_op early.")
 LEVEL_NOTE = "Structural necessary conditions of the partition invariant; no BDD-level semantic proof."
 TECHNIQUE = "typestate rule at call sites, complement-pairing def-use rule, arm-table vs. oracle, statement-order rule on rustc HIR facts"
 
